@@ -118,13 +118,115 @@ REWRITES = {
     "try_io": (r"\b(self|reader|r)\.(next|peek|eat_whitespace|read_digits)\(([^()]*)\)\?",
                r"(match \1.\2(\3) { Ok(v__) => v__, Err(e__) => return Err(From::<std::io::Error>::from(e__)) })",
                "`e?` on an io::Result is `match e { Ok(v) => v, Err(x) => return Err(From::from(x)) }` (the definition of `?`; Verus does not track the converted error of a `?` between different error types)"),
+    "write_macros": (None, None,
+        "write!(f, \"<literal>\") appends the literal; write!(f, \"{}\", x) / \"{x}\" appends Display of x; \"{}{}\" two of them; write!(f, \"\\\\u{:04x}\", n) appends backslash-u and lower-case hex of n padded to AT LEAST four digits; writeln!(f) appends a line feed; a target `self.w.borrow_mut()` is the sink `&mut self.w`"),
+    "enumerate": (r"(\w+(?:\.\w+)*)\.iter\(\)\.enumerate\(\)", r"vit::venumerate(\1.iter())",
+        "`.iter().enumerate()` pairs each item with its 0-based position (own iterator type: vstd has no specification for Enumerate)"),
+    "underscore_param2": (r"\(&self, _: ", r"(&self, _unused: ", "a parameter pattern `_` is an unnamed (unused) parameter"),
     "pub_crate": (r"\bpub\(crate\)\s+", r"pub ", "visibility is irrelevant in a single file"),
     "deref_clone": (
         r"(\w+)\.deref\(\)\.clone\(\)", r"vrc::deref_clone(&\1)", "Rc<T>::deref().clone() clones the pointee"),
 }
 
 
+def _split_args(s):
+    """split a macro argument list at top-level commas (strings, chars and brackets respected)"""
+    out, cur, depth, i = [], "", 0, 0
+    while i < len(s):
+        c = s[i]
+        if c == '"':
+            j = i + 1
+            while s[j] != '"':
+                j += 2 if s[j] == "\\" else 1
+            cur += s[i:j + 1]
+            i = j + 1
+            continue
+        if c == "'" and i + 2 < len(s) and (s[i + 2] == "'" or s[i + 1] == "\\"):
+            j = s.index("'", i + 2 if s[i + 1] != "\\" else i + 3)
+            cur += s[i:j + 1]
+            i = j + 1
+            continue
+        if c in "([{":
+            depth += 1
+        elif c in ")]}":
+            depth -= 1
+        if c == "," and depth == 0:
+            out.append(cur.strip())
+            cur = ""
+        else:
+            cur += c
+        i += 1
+    if cur.strip():
+        out.append(cur.strip())
+    return out
+
+
+def _rewrite_write_macros(text):
+    """write!(f, ..) / writeln!(f) on a fmt::Write `f` or on `self.<field>.borrow_mut()` -> calls of trusted primitives"""
+    n = 0
+    out = ""
+    i = 0
+    while True:
+        m = re.search(r"\b(write|writeln)!\(", text[i:])
+        if not m:
+            out += text[i:]
+            break
+        a = i + m.start()
+        b = i + m.end()
+        depth, j = 1, b
+        while depth:
+            c = text[j]
+            if c == '"':
+                j += 1
+                while text[j] != '"':
+                    j += 2 if text[j] == "\\" else 1
+            elif c in "([{":
+                depth += 1
+            elif c in ")]}":
+                depth -= 1
+            j += 1
+        args = _split_args(text[b:j - 1])
+        target = args[0]
+        mm = re.match(r"^self\.(\w+)\.borrow_mut\(\)$", target)
+        mod, tgt = ("vio", "&mut self.%s" % mm.group(1)) if mm else ("vfmt", target)
+        ln = m.group(1) == "writeln"
+        if len(args) == 1:
+            if not ln:
+                raise ExtractError("write! without a format string")
+            rep = "%s::lit(%s, \"\\n\")" % (mod, tgt)
+        else:
+            fmt = args[1]
+            if not (fmt.startswith('"') and fmt.endswith('"')):
+                raise ExtractError("write!: format is not a literal: %r" % fmt)
+            body = fmt[1:-1]
+            rest = args[2:]
+            holes = re.findall(r"(?<!\{)\{([^{}]*)\}(?!\})", body.replace("{{", "\0").replace("}}", "\1"))
+            if not holes and not rest:
+                lit = body.replace("{{", "{").replace("}}", "}") + ("\\n" if ln else "")
+                rep = "%s::lit(%s, \"%s\")" % (mod, tgt, lit)
+            elif body == "\\\\u{:04x}" and len(rest) == 1 and not ln:
+                rep = "%s::hex_min4(%s, %s)" % (mod, tgt, rest[0])
+            elif re.match(r"^\{\w*\}$", body) and len(holes) == 1 and not ln:
+                x = holes[0] if holes[0] else rest[0]
+                rep = "%s::disp(%s, &%s)" % (mod, tgt, x)
+            elif re.match(r"^\{\w*\}\{\w*\}$", body) and len(holes) == 2 and not ln:
+                xs = [h if h else None for h in holes]
+                it = iter(rest)
+                xs = [x if x else next(it) for x in xs]
+                rep = "%s::disp2(%s, &%s, &%s)" % (mod, tgt, xs[0], xs[1])
+            elif mm and ln and re.match(r"^error:\{\w+\}$", body):
+                rep = "vio::error_line(&self.%s, &%s)" % (mm.group(1), holes[0])
+            else:
+                raise ExtractError("write!: unsupported format %r" % fmt)
+        out += text[i:a] + rep
+        i = j
+        n += 1
+    return out, n
+
+
 def _apply_rewrite(name, text):
+    if name == "write_macros":
+        return _rewrite_write_macros(text)
     pat, repl, _ = REWRITES[name]
     if name == "write_disp":
         def f(m):
